@@ -2,4 +2,4 @@
 # dev.sh: instrument + build once into /tmp/vdev (development helper; not used by checks)
 export GOFLAGS=-mod=mod GOPROXY=off GOSUMDB=off GOTOOLCHAIN=local VERIF_DIR=/verif
 cd /verif && (cd vinst && go build -o /verif/bin/vinst .) && rm -rf /tmp/vdev && mkdir -p /tmp/vdev && \
-./bin/vinst ${ACCESS:+-access} /tmp/vdev/ov /verif/vrt ${VERIF_REPO:-/repo} && go build -overlay /tmp/vdev/ov/overlay.json -o /tmp/vdev/vcheck ./cmd/vcheck && echo built /tmp/vdev/vcheck
+./bin/vinst ${ACCESS:+-access} ${VERIF_REPO:+-as /repo} /tmp/vdev/ov /verif/vrt ${VERIF_REPO:-/repo} && go build -overlay /tmp/vdev/ov/overlay.json -o /tmp/vdev/vcheck ./cmd/vcheck && echo built /tmp/vdev/vcheck
